@@ -26,6 +26,9 @@ class Fresh:
         return [self.mod(rnd) for _ in range(rnd.choice([1, 1, 2]))]
 
 
+
+RULE_EXTRA = ('rules in the documented input shorthands (scalar, flat list, bare values) as well as nested Mod lists; a group offered by two rules; a group equal to what the residue already carries (append / overwrite).')
+
 def rand_rule(rnd, fresh, variable):
     st = rnd.choice(["letter", "letter", "lookbehind", "literal2"])
     r = {"style": st, "cls": [], "before": [], "a": "", "b": "", "mods": [], "groups": []}
